@@ -5,7 +5,7 @@ import numpy as np
 
 from vlib import gen_c16 as H
 from vlib import gen_sched as G
-from vlib.runner import Info, Outside, Sub, Violation
+from vlib.runner import Info, Outside, Reject, Sub, Violation
 
 from snaxc.ir.dart import scheduler as S
 from snaxc.ir.dart.access_pattern import Schedule, SchedulePattern, Template, TemplatePattern
@@ -60,7 +60,6 @@ def _checks(r):
 
 def _post(res, r, T_rows, tb, nops, where):
     """All post-conditions on one returned schedule. Returns (n, schedule rows per operand) or raises Violation."""
-    t = len(tb)
     if not isinstance(res, Schedule) or len(res) != nops:
         raise Violation(f"{where}:result-not-a-schedule-of-all-operands", dict(got=repr(res)[:200]))
     bounds = tuple(res[0].bounds)
@@ -70,7 +69,15 @@ def _post(res, r, T_rows, tb, nops, where):
         if tuple(p.bounds) != bounds or p.pattern.A.shape != (p.pattern.A.shape[0], n):
             raise Violation(f"{where}:operands-disagree-on-bounds", dict(result=G.schedule_to_recipe(res)))
         S_rows.append(_rows(p))
-    detail = lambda **kw: dict(result=dict(bounds=list(bounds), A=S_rows), template_bounds=tb, **kw)  # noqa: E731
+    return _post_rows(bounds, S_rows, r, T_rows, tb, nops, where)
+
+
+def _post_rows(bounds, S_rows, r, T_rows, tb, nops, where, extra=None):
+    """The post-conditions on plain ints: bounds, per operand the rows of its pattern. r['checks'] / r['elsizes'] name the requested
+    constraints (element sizes: one per operand, ALL operands)."""
+    t = len(tb)
+    n = len(bounds)
+    detail = lambda **kw: dict(result=dict(bounds=list(bounds), A=S_rows), template_bounds=tb, **(extra or {}), **kw)  # noqa: E731
     # (1) template fit, exact
     for i in range(nops):
         if not H.operand_fits(T_rows[i], S_rows[i], t, n):
@@ -260,6 +267,121 @@ def exhaustive_matcher(tier):
                 yield dict(t=t, n=t, ops=[dict(TA=TA, SA=SA)], drop=False, kind="exhaustive")
 
 
+# ---------------------------------------------------------------------------------------- pass level
+
+
+def _affine_rows(amap):
+    """Integer coefficient rows of an affine map, by evaluation at 0 and at the unit vectors (checked for linearity at 3)."""
+    nd = amap.num_dims
+    zero = [0] * nd
+    b = [int(x) for x in amap.eval(zero, [])]
+    rows = [[0] * nd for _ in b]
+    for i in range(nd):
+        for scale in (1, 3):
+            e = list(zero)
+            e[i] = scale
+            v = [int(x) for x in amap.eval(e, [])]
+            for k in range(len(b)):
+                if scale == 1:
+                    rows[k][i] = v[k] - b[k]
+                elif v[k] - b[k] != 3 * rows[k][i]:
+                    raise Outside("pattern is not linear")
+    return rows
+
+
+def prop_autoflow(r):
+    """dart.operation -> dart-scheduler (the pass, with the constraints IT requests: pure output stationarity and memory access
+    granularity) -> the post-conditions on the emitted dart.schedule, with the element sizes of ALL operands."""
+    from vlib.ctx import PassTimeout, parse, run_pass, shared_ctx, time_limit, to_text
+
+    fam = r.get("fam")
+    if fam not in H.FAM_ACC or len(r["ops"]) != H.FAM_NOPS[fam]:
+        raise Outside("family / operand count")
+    nd = len(r["bounds"])
+    if not (1 <= nd <= H.AUTOFLOW_MAXDIM) or any(not isinstance(b, int) or not (1 <= b <= 64) for b in r["bounds"]):
+        raise Outside("iteration bounds outside 1..64 or more than 4 dims")
+    for o in r["ops"]:
+        if o["ety"] not in H.ELSIZE or not (1 <= len(o["rows"]) <= 4) or any(
+                len(row) != nd or not any(row) or any(not isinstance(c, int) or not (0 <= c <= 8) for c in row) for row in o["rows"]):
+            raise Outside("operand pattern outside the stated domain")
+    if not H._plain_dims_ok(r["ops"], nd):
+        raise Outside("an iteration dim never occurs as a plain result: the operation's bounds cannot be read from the operand shapes")
+    nops = len(r["ops"])
+    elsizes = [H.ELSIZE[o["ety"]] for o in r["ops"]]  # computed from the operand types in the recipe, one per operand
+    text = H.autoflow_text(r)
+    ctx = shared_ctx()
+    mod = parse(text, ctx)
+    mod.verify()  # a failure here is a harness error (invalid generated IR)
+    op = next(o for o in mod.walk() if o.name == "dart.operation")
+    acc_name = H.FAM_ACC[fam]
+    cls = ["fam:" + fam, f"dims:{nd}", "etys:" + ("uniform" if len(set(elsizes)) == 1 else "mixed"),
+           "narrowest:" + ("output-only" if elsizes[-1] < min(elsizes[:-1]) else "an-input" if min(elsizes) < 8 else "none-below-bank"),
+           ] + ["how:" + t for t in r.get("tags", ())]
+    # the accelerator's template is the hardware description the schedule has to fit
+    try:
+        run_pass(mod, "insert-accfg-op", accelerator=acc_name)
+        tmpl = ctx.get_acc(acc_name).get_template(op)
+        tb = [b for b in tmpl[0].bounds]
+        T_rows = [_rows(p) for p in tmpl]
+    except Exception as e:
+        raise Outside(f"accelerator template not available: {type(e).__name__}")
+    if len(T_rows) != nops:
+        raise Outside("template and operation disagree on the operand count")
+    # label only (never part of the verdict): the first loop nest the scheduler finds when the OUTPUT is left out of the
+    # granularity constraint; where it differs from the emitted schedule, the output's granularity decided the choice
+    first_without_output = None
+    if elsizes[-1] < H.BANK:
+        try:
+            with time_limit(20):
+                s0 = Schedule(SchedulePattern(tuple(r["bounds"]), p.data) for p in op.patterns.data).canonicalize()
+                f0 = S.scheduler(tmpl, s0, extra_checks=[S.is_pure_output_stationary,
+                                                         lambda t_, s_: S.is_memory_flexible_enough(t_, s_, elsizes[:-1])])
+                first_without_output = ([int(b) for b in f0[0].bounds], [_rows(p) for p in f0])
+        except (Exception, PassTimeout):
+            first_without_output = None
+    try:
+        with time_limit(20):
+            run_pass(mod, "dart-scheduler")
+    except PassTimeout:
+        raise Reject("scheduler did not terminate within 20 s")
+    except StopIteration:
+        cls.append("outcome:no-schedule" + (":output-granularity-decisive" if first_without_output is not None else ""))
+        return Info(nontrivial=False, classes=tuple(cls))
+    except (NotImplementedError, RuntimeError, AssertionError) as e:
+        raise Reject(f"scheduler refused: {type(e).__name__}")
+    except Exception as e:
+        raise Violation(f"autoflow:raises:{type(e).__name__}", dict(error=repr(e)[:400], module=text))
+    scheds = [o for o in mod.walk() if o.name == "dart.schedule"]
+    if len(scheds) != 1 or any(o.name == "dart.operation" for o in mod.walk()):
+        raise Reject("operation left unscheduled")
+    s = scheds[0]
+    try:
+        mod.verify()
+    except Exception as e:
+        raise Violation("autoflow:invalid-ir-after-pass", dict(error=repr(e)[:400], module=text))
+    bounds = [int(b.value.data) for b in s.bounds.data]
+    S_rows = [_affine_rows(p.data) for p in s.patterns.data]
+    extra = dict(module=text, element_sizes=elsizes, schedule_op=to_text(s)[:1500])
+    if len(S_rows) != nops or len(s.operands) != nops or [H.ELSIZE.get(str(o.type.element_type)) for o in s.operands] != elsizes:
+        raise Violation("autoflow:schedule-operands-differ-from-operation-operands", extra)
+    if any(len(row) != len(bounds) for rows in S_rows for row in rows):
+        raise Violation("autoflow:pattern-dims-differ-from-bounds", extra)
+    n, _ = _post_rows(bounds, S_rows, dict(checks=["pos", "mem"], elsizes=elsizes), T_rows, tb, nops, "autoflow", extra)
+    t = len(tb)
+    cls.append("outcome:scheduled")
+    cls.append("final:" + ("n<t" if n < t else "n==t" if n == t else "n>t"))
+    if n > len(r["bounds"]):
+        cls.append("tiled")
+    applicable = n > t and min(elsizes) < H.BANK
+    if applicable:
+        cls.append("granularity-applicable")
+    if first_without_output is not None:
+        # label only: did the output's granularity decide which loop nest was taken?
+        cls.append("output-granularity:" + ("decisive" if first_without_output != (bounds, S_rows) else "not-decisive"))
+    return Info(nontrivial=bool(applicable), classes=tuple(cls), evals=1,
+                sample=dict(bounds=bounds, A=S_rows, template_bounds=tb, element_sizes=elsizes))
+
+
 SUBS = [
     Sub("scheduler", lambda tier: H.sched_case(tier), prop_sched,
         budget=dict(quick=4000, thorough=60000), floor=dict(quick=400, thorough=6000),
@@ -271,6 +393,10 @@ SUBS = [
     Sub("matcher_perturbed", lambda tier: H.matcher_case(tier, "perturb"), prop_matcher,
         budget=dict(quick=10000, thorough=300000), floor=dict(quick=1400, thorough=43000),
         nontrivial_rule="exact decision is 'no match' for some operand that has at least as many dims as the template"),
+    Sub("autoflow_pass", lambda tier: H.autoflow_case(tier), prop_autoflow,
+        budget=dict(quick=400, thorough=12000), exhaustive=H.autoflow_exhaustive, floor=dict(quick=100, thorough=1500),
+        nontrivial_rule="the pass emitted a dart.schedule with temporal dims (more dims than the template) and an operand whose elements are "
+                        "narrower than the 8-byte bank, i.e. the granularity constraint is applicable and can bind"),
     Sub("matcher_exhaustive", None, prop_matcher, budget=dict(quick=0, thorough=0),
         exhaustive=exhaustive_matcher, exhaustive_only=True,
         nontrivial_rule="every enumerated pair (complete enumeration of the small space, thorough tier only)"),
